@@ -414,12 +414,38 @@ func (ex *Exec) doAppend(s *State, instr ssa.Instruction, c *ssa.CallCommon, arg
 		i, la.S, content.S, i, m.S, SlBase(a).S, SlOff(a).S, i,
 		la.S, i, i, la.S, lb.S, content.S, i, m.S, SlBase(b).S, SlOff(b).S, i, la.S,
 		content.S, i), SBool})
-	s.heapSet(name, Store(m, base, content))
+	m1 := Store(m, base, content)
 	nl := BVAdd(la, lb)
 	nc := s.declare(ex.g.fresh("cap"), SBV(64))
 	s.assume(And(BVSle(nl, nc), BVUle(nc, BVLit(1<<41, 64))))
-	ex.usedAssume["A-APPEND: append result modelled as fresh backing store (no aliasing through spare capacity)"] = true
-	return Scalar{MkSlice(base, BVLit(0, 64), nl, nc)}
+	// Go semantics: when the capacity suffices the elements are written in
+	// place, behind the current length, into the backing array the argument
+	// shares with every slice derived from it (other elements unchanged);
+	// otherwise a fresh array is allocated. Both cases in one term.
+	if es != SBV(8) {
+		// Only byte slices get the exact treatment: they are the ones that
+		// alias data of other owners (configured passwords, payloads, decoded
+		// datagrams). For other element types the result is modelled as a
+		// fresh array (A-APPEND): the only such append in the repository grows
+		// handler1.pktBuffer, whose backing array nothing else refers to.
+		s.heapSet(name, m1)
+		ex.usedAssume["A-APPEND: append to a slice whose elements are not bytes is modelled as yielding a fresh backing array (no aliasing through spare capacity); byte slices are modelled exactly (in place when the capacity suffices)"] = true
+		return Scalar{MkSlice(base, BVLit(0, 64), nl, nc)}
+	}
+	fits := And(Not(Eq(SlBase(a), TNilR)), BVUle(nl, SlCap(a)))
+	inplace := s.declare(ex.g.fresh("apl"), SArray(SBV(64), es))
+	k := ex.g.fresh("k")
+	start := BVAdd(SlOff(a), la)
+	s.assume(Term{fmt.Sprintf("(forall ((%s (_ BitVec 64))) (! (= (select %s %s) (ite (and (bvule %s %s) (bvult %s (bvadd %s %s))) (select (select %s %s) (bvadd %s (bvsub %s %s))) (select (select %s %s) %s))) :pattern ((select %s %s))))",
+		k, inplace.S, k,
+		start.S, k, k, start.S, lb.S,
+		m.S, SlBase(b).S, SlOff(b).S, k, start.S,
+		m.S, SlBase(a).S, k,
+		inplace.S, k), SBool})
+	s.heapSet(name, Store(m1, SlBase(a), Ite(fits, inplace, Select(m1, SlBase(a)))))
+	fresh := MkSlice(base, BVLit(0, 64), nl, nc)
+	same := MkSlice(SlBase(a), SlOff(a), nl, SlCap(a))
+	return Scalar{Ite(fits, same, fresh)}
 }
 
 // ---- channels (signal-only) -------------------------------------------------------
